@@ -10,5 +10,6 @@ import Resvg.Props.C13
 #print axioms Resvg.Props.C13.C13_layer_shift
 #print axioms Resvg.Props.C13.C13_local_invariant
 #print axioms Resvg.Props.C13.C13_light_point_commutes
-#print axioms Resvg.Props.C13.C13_light_spot_commutes_false
+#print axioms Resvg.Props.C13.C13_light_spot_commutes
+#print axioms Resvg.Props.C13.C13_light_spot_commutes_old_false
 #print axioms Resvg.Props.C13.C13_light_local
